@@ -5,7 +5,10 @@ Oracle: the numpy function applied to plain `numpy.array(...)` of the same value
 
 Input form (JSON):  {"fn": name, "args": [A..], "kwargs": {..}}  with
     A = {"array": nested, "dtype": str, "poly": bool[, "shape": [..]]} | {"value": v} | {"tuple": [..]} | {"seq": [A..]} | {"poly": spec}
-Every input is run through both spellings, numpoly.<fn> and numpy.<fn> (when <fn> is mirrored)."""
+Every input is run through both spellings, numpoly.<fn> and numpy.<fn> (when <fn> is mirrored; matmul also through the
+@ operator; the constructors zeros/ones/full, which numpy dispatches on `like=` only, through numpoly.<fn> alone).
+Inputs with a size-0 operand or size-0 numpy result occur in the `size0` check only; `repeat` without an axis argument
+only in `repeat.default_axis`; `matmul` with a 1-d operand only in `matmul.vector_operand`."""
 from __future__ import annotations
 import itertools
 import warnings
@@ -41,10 +44,18 @@ def axes_of(shape, tuples=True):
     return out
 
 
+def resolve(mod, name):
+    """numpy: dotted path ('linalg.det' -> numpy.linalg.det); numpoly: the last component (numpoly.det)."""
+    obj = mod
+    for part in (name.split(".") if mod is numpy else name.split(".")[-1:]):
+        obj = getattr(obj, part, None)
+    return obj
+
+
 def mirrored(name):
     import numpoly
-    f = getattr(numpy, name, None)
-    return f is not None and hasattr(numpoly, name) and (f in numpoly.FUNCTION_COLLECTION or f in numpoly.UFUNC_COLLECTION)
+    f = resolve(numpy, name)
+    return f is not None and resolve(numpoly, name) is not None and (f in numpoly.FUNCTION_COLLECTION or f in numpoly.UFUNC_COLLECTION)
 
 
 def thin(tier, rng, items, quick_fraction):
@@ -63,15 +74,27 @@ def _leaves(x):
         yield numpy.asarray(x)
 
 
+def _operands(a):
+    if "array" in a:
+        x = numpy.array(a["array"], dtype=a["dtype"])
+        yield x.reshape(a["shape"]) if "shape" in a else x
+    for x in a.get("seq", ()):
+        yield from _operands(x)
+
+
 def classify(inp):
-    """'reject': numpy itself refuses the arguments (input dropped); 'empty': numpy's result is or contains a size-0
-    array (routed to the size0 check); 'ok' otherwise."""
+    """'reject': numpy itself refuses the arguments (input dropped); 'empty': an operand, or numpy's result (or one of its
+    parts), is a size-0 array -- such inputs belong to the size0 check and to no other; 'ok' otherwise."""
     try:
         with warnings.catch_warnings(), numpy.errstate(all="ignore"):
             warnings.simplefilter("ignore")
-            want = getattr(numpy, inp["fn"])(*[_arg(a, False) for a in inp["args"]], **_kw(inp.get("kwargs", {})))
+            want = resolve(numpy, inp["fn"])(*[_arg(a, False) for a in inp["args"]], **_kw(inp.get("kwargs", {})))
     except Exception:
         return "reject"
+    if any(x.size == 0 for a in inp["args"] for x in _operands(a)):
+        return "empty"
+    if isinstance(want, (numpy.dtype, type)):
+        return "ok"
     return "empty" if any(v.size == 0 for v in _leaves(want)) else "ok"
 
 
@@ -95,8 +118,17 @@ def _kw(kwargs):
     return {k: (tuple(v) if isinstance(v, list) else v) for k, v in kwargs.items()}
 
 
+CONSTRUCTORS = {"zeros", "ones", "full"}     # numpy dispatches these on `like=` only: numpoly spelling only
+ATOL = {"linalg.det": 1e-9}      # numpy's LU determinant of an exactly singular matrix is only approximately 0
+
+
 def _compare(got, want, fn, where="result"):
     import numpoly
+    if isinstance(want, (numpy.dtype, type)):           # result_type / common_type
+        try:
+            return None if numpy.dtype(got) == numpy.dtype(want) else f"{where}: {got!r}, numpy gives {want!r}"
+        except TypeError:
+            return f"{where}: {got!r:.100} is not a data type, numpy gives {want!r}"
     if isinstance(want, (tuple, list)):
         if not isinstance(got, (tuple, list)) or len(got) != len(want):
             return f"{where}: expected a sequence of {len(want)} results, got {type(got).__name__} {got!r:.120}"
@@ -123,35 +155,48 @@ def _compare(got, want, fn, where="result"):
     if want.dtype.kind in "biu":
         ok = numpy.array_equal(got, want)
     else:
-        ok = numpy.allclose(got, want, rtol=1e-12, atol=0, equal_nan=True)
+        ok = numpy.allclose(got, want, rtol=1e-12, atol=ATOL.get(fn, 0), equal_nan=True)
     return None if ok else f"{where}: values {got.tolist()!r:.150}, numpy gives {want.tolist()!r:.150}"
+
+
+def _has_poly(a):
+    return ("array" in a and a.get("poly", True)) or any(_has_poly(x) for x in a.get("seq", ()))
 
 
 def run_both(inp):
     import numpoly
+    import operator
     fn, kw = inp["fn"], _kw(inp.get("kwargs", {}))
     with warnings.catch_warnings(), numpy.errstate(all="ignore"):
         warnings.simplefilter("ignore")
         try:
-            want = getattr(numpy, fn)(*[_arg(a, False) for a in inp["args"]], **kw)
+            want = resolve(numpy, fn)(*[_arg(a, False) for a in inp["args"]], **kw)
         except Exception:
             return None         # numpy itself rejects these arguments: outside the property
-        for via in ("numpoly", "numpy"):
-            mod = numpoly if via == "numpoly" else numpy
-            if not hasattr(mod, fn) or (via == "numpy" and not mirrored(fn)):
+        spellings = [("numpoly." + fn.split(".")[-1], resolve(numpoly, fn))]
+        if mirrored(fn) and fn not in CONSTRUCTORS and any(_has_poly(a) for a in inp["args"]):   # numpy dispatches on polynomial arguments
+            spellings.append(("numpy." + fn, resolve(numpy, fn)))
+            if fn == "matmul":
+                spellings.append(("operator @", operator.matmul))
+        for via, f in spellings:
+            if f is None:
                 continue
             try:
-                got = getattr(mod, fn)(*[_arg(a, True) for a in inp["args"]], **kw)
+                got = f(*[_arg(a, True) for a in inp["args"]], **kw)
             except Exception as e:
-                return f"{via}.{fn}: raised {type(e).__name__}: {str(e)[:200]}; numpy gives {want!r:.120}"
-            r = _compare(got, want, fn, f"{via}.{fn}")
+                return f"{via}: raised {type(e).__name__}: {str(e)[:200]}; numpy gives {want!r:.120}"
+            r = _compare(got, want, fn, via)
             if r:
                 return r
     return None
 
 
-def family(prop_name, gen, functions, note):
-    return check("C11", prop_name, gen, functions=tuple("numpoly." + f for f in functions), note=note)(run_both)
+def family(prop_name, gen, functions, note, keep="ok"):
+    """Registers run_both on the inputs of `gen` that are mirrored and of class `keep` (see classify): size-0 operands or
+    results occur in the size0 check only, inputs numpy rejects nowhere."""
+    def kept(tier, rng):
+        return (i for i in gen(tier, rng) if mirrored(i["fn"]) and classify(i) == keep)
+    return check("C11", prop_name, kept, functions=tuple("numpoly." + f for f in functions), note=note)(run_both)
 
 
 # ------------------------------------------------------------------ reductions
@@ -382,14 +427,25 @@ SHAPE_FNS = ["reshape", "transpose", "moveaxis", "expand_dims", "atleast_1d", "a
              "stack", "hstack", "vstack", "dstack", "split", "array_split", "hsplit", "vsplit", "dsplit", "broadcast_arrays", "diag", "diagonal"]
 
 
+def _repeat_default(i):
+    return i["fn"] == "repeat" and "axis" not in i["kwargs"]
+
+
 def gen_shape(tier, rng):
-    items = (i for i in _shape_inputs(rng, SHAPES + [(2, 2), (3, 3), (4, 2)]) if mirrored(i["fn"]) and classify(i) == "ok")
-    yield from thin(tier, rng, items, 0.25)
+    yield from thin(tier, rng, (i for i in _shape_inputs(rng, SHAPES + [(2, 2), (3, 3), (4, 2)]) if not _repeat_default(i)), 0.25)
+
+
+def gen_repeat_default(tier, rng):
+    for _ in range(count(tier, 1, 3)):
+        yield from (i for i in _shape_inputs(rng, SHAPES + [(2, 2), (3, 3), (4, 2)]) if _repeat_default(i))
 
 
 family("shape_functions", gen_shape, SHAPE_FNS,
        BOUNDS + "every axis / permutation / source-destination pair, reshape targets incl. -1 and order='F', repeats 0..2 and per-element, "
-       "tile reps up to 4-d, split sections 1..4 and index lists, sequences mixing polynomials and plain arrays; thorough = exhaustive grid")
+       "tile reps up to 4-d, split sections 1..4 and index lists, sequences mixing polynomials and plain arrays; thorough = exhaustive grid; "
+       "repeat only with an explicit axis")
+family("repeat.default_axis", gen_repeat_default, ["repeat"],
+       BOUNDS + "repeat called without an axis argument (numpy: axis=None, flattened result), repeats 1..2, 13 shapes")
 
 
 # ------------------------------------------------------------------ remaining mirrored element-wise / linear functions
@@ -419,8 +475,22 @@ def gen_misc(tier, rng):
             yield {"fn": "where", "args": [A(rng, s1, "bool", poly=False), a(s1), a(s2)], "kwargs": {}}
         for s1, s2 in [((), ()), ((3,), (3,)), ((2, 3), (3,)), ((3,), (2, 3)), ((2, 3), (4, 3)), ((), (3,)), ((2, 2, 3), (3,))]:
             yield {"fn": "inner", "args": [a(s1), a(s2, poly=rng.random() < 0.6)], "kwargs": {}}
-        for s1, s2 in [((3,), (3,)), ((2, 3), (3,)), ((3,), (3, 2)), ((2, 3), (3, 4)), ((2, 2, 3), (3, 2)), ((2, 2, 3), (2, 3, 1))]:
+        for s1, s2 in [((2, 3), (3, 4)), ((1, 3), (3, 1)), ((2, 2, 3), (3, 2)), ((2, 2, 3), (2, 3, 1)), ((2, 3), (2, 3, 2))]:
             yield {"fn": "matmul", "args": [a(s1), a(s2, poly=rng.random() < 0.6)], "kwargs": {}}
+        for shape in [(1, 1), (2, 2), (3, 3), (2, 2, 2)]:
+            yield {"fn": "linalg.det", "args": [a(shape)], "kwargs": {}}
+        for dts in itertools.product(("int64", "float64", "bool"), repeat=2):
+            arrs = [a(rng.choice([(), (2,), (2, 2)]), dt, poly=(k == 0 or rng.random() < 0.6)) for k, dt in enumerate(dts)]
+            yield {"fn": "result_type", "args": arrs, "kwargs": {}}
+            yield {"fn": "result_type", "args": arrs[:1] + [V(rng.choice([1, 2.5, True]))], "kwargs": {}}
+            yield {"fn": "common_type", "args": arrs, "kwargs": {}}
+            yield {"fn": "common_type", "args": arrs[:1], "kwargs": {}}
+        for shape in [3, (), (2,), (2, 3), (2, 1, 2)]:
+            for kw in ({}, {"dtype": "int64"}, {"dtype": "float64"}, {"dtype": "bool"}):
+                yield {"fn": "zeros", "args": [V(shape)], "kwargs": kw}
+                yield {"fn": "ones", "args": [V(shape)], "kwargs": kw}
+                fill = rng.choice([V(3), V(-1.5), a(()), A(rng, (), "float64", poly=False)])
+                yield {"fn": "full", "args": [V(shape), fill], "kwargs": kw}
         for s1, s2 in [((3,), (2,)), ((), (3,)), ((2, 2), (3,)), ((1,), (1,))]:
             yield {"fn": "outer", "args": [a(s1), a(s2, poly=rng.random() < 0.6)], "kwargs": {}}
         for shape in [(), (3,), (2, 2)]:
@@ -429,16 +499,23 @@ def gen_misc(tier, rng):
 
 
 MISC = ["absolute", "negative", "positive", "square", "isfinite", "zeros_like", "ones_like", "full_like", "diff", "ediff1d", "add", "subtract",
-        "multiply", "maximum", "minimum", "power", "where", "inner", "matmul", "outer", "choose"]
+        "multiply", "maximum", "minimum", "power", "where", "inner", "matmul", "outer", "choose", "det", "result_type", "common_type",
+        "zeros", "ones", "full"]
 
 
-def gen_misc_mirrored(tier, rng):
-    return (i for i in gen_misc(tier, rng) if mirrored(i["fn"]) and classify(i) == "ok")
+def gen_matmul_vector(tier, rng):
+    for _ in range(count(tier, 3, 15)):
+        for s1, s2 in [((3,), (3,)), ((1,), (1,)), ((2, 3), (3,)), ((3,), (3, 2)), ((2, 2, 3), (3,)), ((3,), (2, 3, 2))]:
+            dt1, dt2 = rng.choice(["int64", "float64"]), rng.choice(["int64", "float64"])
+            yield {"fn": "matmul", "args": [A(rng, s1, dt1), A(rng, s2, dt2, poly=rng.random() < 0.6)], "kwargs": {}}
 
 
-family("other_mirrored", gen_misc_mirrored, MISC,
+family("other_mirrored", gen_misc, MISC,
        BOUNDS + "the mirrored functions outside the named catalogue: element-wise arithmetic, maximum/minimum, where, diff (n<=2), "
-       "inner/outer/matmul shape combinations, choose, *_like")
+       "inner/outer, matmul of operands with >=2 dimensions (function and @), choose, *_like, det of 1x1..3x3 (and a stack), "
+       "result_type/common_type (dtype compared), zeros/ones/full with dtype absent/int64/float64/bool (numpoly spelling only)")
+family("matmul.vector_operand", gen_matmul_vector, ["matmul"],
+       BOUNDS + "matmul where at least one operand is 1-d (6 shape pairs), spellings numpoly.matmul, numpy.matmul and the @ operator")
 
 
 # ------------------------------------------------------------------ size-0 arrays
@@ -465,11 +542,15 @@ def gen_size0(tier, rng):
         yield {"fn": "broadcast_arrays", "args": [z, A(rng, (shape[-1],) if shape[-1] else (), "int64")], "kwargs": {}}
     yield {"fn": "concatenate", "args": [{"seq": [A(rng, (2,), "int64"), {"array": [], "dtype": "int64", "poly": True}]}], "kwargs": {}}
     # non-empty arguments whose numpy result is (or contains) an empty array
+    for shape in [(3,), (2, 2)]:
+        yield {"fn": "nonzero", "args": [{"array": numpy.zeros(shape, dtype=int).tolist(), "dtype": "int64", "poly": True}], "kwargs": {}}
+    # non-empty arguments whose numpy result is (or contains) an empty array: kept by the family filter (class 'empty')
     routed = itertools.chain(_shape_inputs(rng, [(1,), (3,), (1, 1), (2, 3), (2, 1, 3)]), gen_misc("quick", rng))
-    yield from thin(tier, rng, (i for i in routed if mirrored(i["fn"]) and classify(i) == "empty"), 0.5)
+    yield from thin(tier, rng, (i for i in routed if classify(i) == "empty"), 0.5)
 
 
 family("size0", gen_size0, ["polynomial", "sum", "prod", "any", "all", "equal", "less", "reshape", "concatenate"],
        "bounded: argument shapes (0,), (0,3), (2,0), (2,0,2): reductions over every axis, comparisons, arithmetic, division, shape "
        "functions; plus the inputs of shape_functions/other_mirrored whose numpy result is or contains an empty array (repeat 0, empty "
-       "split pieces, diff of one element ...); numpy's conventions (sum=0, prod=1, all=True, result shapes) are the expected values")
+       "split pieces, diff of one element, nonzero of an all-zero array ...); numpy's conventions (sum=0, prod=1, all=True, result "
+       "shapes) are the expected values; no other C11 check contains an input with a size-0 operand or result", keep="empty")
